@@ -23,13 +23,26 @@ PY
   out=$(./check $prop $TIER 2>&1); rc=$?
   cd /repo && git checkout -- . && git clean -fdq src; cd /verif
   viol=$(echo "$out" | grep -m1 "^violation:" | cut -c1-300)
+  [ -z "$viol" ] && viol=$(echo "$out" | grep -m1 "^regression:" | cut -c1-300)
   sumline=$(echo "$out" | grep -m1 -E "^$prop $TIER:")
-  echo "$id $prop exit=$rc $viol"
-  python3 - "$d" "$rc" "$viol" "$sumline" "$TIER" <<'PY'
+  also=""
+  if [ $rc -ne 1 ]; then
+    # not caught by its own property's check: the checks named in meta.json "try_also" (another property the change breaks too)
+    for p2 in $(python3 -c "import json;print(' '.join(json.load(open('$d/meta.json')).get('try_also',[])))"); do
+      cd /repo && { git apply "/verif/$d/patch.diff" 2>/dev/null || patch -p1 -s --no-backup-if-mismatch < "/verif/$d/patch.diff" >/dev/null 2>&1; }; cd /verif
+      out2=$(./check $p2 $TIER 2>&1); rc2=$?
+      cd /repo && git checkout -- . && git clean -fdq src; cd /verif
+      if [ $rc2 -eq 1 ]; then also="$p2: $(echo "$out2" | grep -m1 "^violation:" | cut -c1-200)"; break; fi
+    done
+  fi
+  echo "$id $prop exit=$rc $viol ${also:+[also: $also]}"
+  python3 - "$d" "$rc" "$viol" "$sumline" "$TIER" "$also" <<'PY'
 import json,sys
-d,rc,viol,sumline,tier=sys.argv[1:6]
+d,rc,viol,sumline,tier,also=sys.argv[1:7]
 p=d+"/meta.json"; m=json.load(open(p))
 m["detected_by"]={"check":f"./check {m['property']} {tier}","exit":int(rc),"detected":int(rc)==1,"violation":viol,"run":sumline}
+if also:
+    m["detected_by"]["detected_by_other_check"]=also
 json.dump(m,open(p,"w"),indent=1)
 PY
 done
